@@ -83,11 +83,11 @@ PROPS = {
         'C06_check re-derives the token sequence from the returned tree (leaves in order with typed values, operator counts).',
         []),
     'C07': P(
-        ['C07_juxtaposition_is_and', 'C07_local_step'],
+        ['C07_juxtaposition_is_and', 'C07_same_parse', 'C07_same_parse_of_text', 'C07_local_step'],
         [('corpus', 0), ('juxt', 2000)],
         [('corpus', 0), ('juxt', 40000), ('enum', 5000)],
         PARSE,
-        'full: for all pre, post and term tokens t1 t2 the runs on pre t1 t2 post and pre t1 AND t2 post end in the same result.',
+        'full: for all contexts pre, post and term tokens t1 t2, `pre t1 t2 post` and `pre t1 AND t2 post` give the same result - as final state of the parser loop, as result of parse_toks (loop + Validate), and as result of Parse on ASCII query text.',
         'pairs (all AND written / some AND nodes juxtaposed) of printed random trees, and pairs over arbitrary token sequences with two adjacent terminals; non-trivial = pair accepted',
         '', []),
     'C08': P(
@@ -115,11 +115,11 @@ PROPS = {
         'token sequences, random and damaged queries, random bytes; non-trivial = accepted',
         '', ['oracle fact: %v of a float64 is non-empty']),
     'C11': P(
-        ['C11_default_field_scopes_bare_terms'],
+        ['C11_default_field_scopes_bare_terms', 'C11_parse_with_default_field'],
         [('corpus', 0), ('dfield', 4000)],
         [('corpus', 0), ('dfield', 60000), ('enum', 5000)],
         PARSE,
-        'full at token level: for every token list not mentioning f, parsing with default field f = parsing without, then scope f.',
+        'full: for every input string whose terms do not denote f, Parse with the default field f = Parse without it followed by scope f (same acceptance, exactly the scoped tree); scope f touches bare operands only.',
         'pairs (without / with a default field that does not occur in the query) of random trees and token sequences, field names needing quoting',
         '', []),
     'C12': P(
